@@ -494,6 +494,12 @@ impl QueryRouter {
             return Ok(()); // Nothing to do
         }
 
+        // The client chose the role itself (SET SERVER ROLE): the message may still have been
+        // parsed for the plugins, but nothing is inferred from it.
+        if self.query_parser_enabled == Some(false) {
+            return Ok(());
+        }
+
         debug!("Inferring role");
 
         if ast.is_empty() {
@@ -1302,6 +1308,14 @@ impl QueryRouter {
     }
 
     /// Should we attempt to parse queries?
+    /// Should client messages be parsed? Yes when the query parser is on for this session, and
+    /// also when the pool runs plugins on the parsed statements: `SET SERVER ROLE` switches the
+    /// session's role inference off, not the pool's plugins.
+    pub fn parses_messages(&self) -> bool {
+        self.query_parser_enabled()
+            || (self.pool_settings.query_parser_enabled && self.pool_settings.plugins.is_some())
+    }
+
     pub fn query_parser_enabled(&self) -> bool {
         match self.query_parser_enabled {
             None => {
